@@ -30,7 +30,8 @@ SimToks == GoodToks \cup BadToks
 IsGood(sg) == sg.kind = "good"
 \* (the w parameters only weight TLC's uniform choice among successors)
 Step ==
-  \/ \E c \in ClaimIds, w \in 1..6 : SetClaims(c) /\ Log([op |-> "SetClaims", c |-> c])
+  \* (same: the argument is the very object already attached, whose content may have been changed in place since)
+  \/ \E c \in ClaimIds, w \in 1..6 : SetClaims(c) /\ Log([op |-> "SetClaims", c |-> c, same |-> (ev.claims = c /\ w > 2)])
   \/ \E c \in ClaimIds, w \in 1..3 : Attach(c) /\ Log([op |-> "Attach", c |-> c, inplace |-> FALSE])
   \* outside mutation of the attached claims object (same object, new content): to the Evidence it is an attach
   \/ \E c \in ClaimIds, w \in 1..8 : ev.claims # "nil" /\ Attach(c) /\ Log([op |-> "Attach", c |-> c, inplace |-> TRUE])
